@@ -654,6 +654,19 @@ pub fn render(s: &Suggestion) -> Rendered {
 // ---------------------------------------------------------------------------------------------
 // context wrapper
 
+/// How `Ctx::update_with` hands the new configuration to update-engine.
+#[derive(Clone, Copy, Debug, PartialEq, Eq)]
+pub enum UpdateMode {
+    /// chosen from the pair (old options, new options)
+    Auto,
+    /// a newly built configuration object
+    NewObject,
+    /// the same object, only the setters of the options that changed
+    KeepChanged,
+    /// the same object, all setters
+    KeepAll,
+}
+
 pub struct Ctx {
     pub opts: Opts,
     pub cfg: Box<Config>,
@@ -701,6 +714,9 @@ impl Ctx {
     /// chosen deterministically from the pair (old options, new options).  The object can only be kept when
     /// the user directory and the presence of the data directory are the same (both are fixed at creation).
     pub fn update(&mut self, opts: Opts, sb: &Sandbox) -> Result<(), PanicInfo> {
+        self.update_with(opts, sb, UpdateMode::Auto)
+    }
+    pub fn update_with(&mut self, opts: Opts, sb: &Sandbox, mode: UpdateMode) -> Result<(), PanicInfo> {
         ENGINE_EVENTS.fetch_add(1, Ordering::Relaxed);
         let h = {
             use std::hash::{Hash, Hasher};
@@ -708,10 +724,20 @@ impl Ctx {
             (self.opts, opts).hash(&mut hs);
             hs.finish() as usize
         };
-        let keep = sb.base() == self.base.as_path() && self.opts.nodata == opts.nodata && h % 2 == 0;
+        let possible = sb.base() == self.base.as_path() && self.opts.nodata == opts.nodata;
+        let keep = possible && match mode {
+            UpdateMode::Auto => h % 2 == 0,
+            UpdateMode::NewObject => false,
+            UpdateMode::KeepChanged | UpdateMode::KeepAll => true,
+        };
         if keep {
             let c: *mut Config = &mut *self.cfg;
-            let (old, only_changed) = (self.opts, (h / 2) % 2 == 0);
+            let only_changed = match mode {
+                UpdateMode::KeepChanged => true,
+                UpdateMode::KeepAll => false,
+                _ => (h / 2) % 2 == 0,
+            };
+            let old = self.opts;
             unsafe {
                 if old.layout != opts.layout || !only_changed {
                     let l = CString::new(opts.layout.path()).unwrap();
